@@ -153,4 +153,99 @@ theorem mkCHPR_rescale {k : Rat} (hk : k ≠ 0) {u u' : Nat} (hu : (u' : Rat) * 
   simp only [CHPP.rescale, convertSteps_rescale hk hu, rawNonzero_scale hone, scaleDt_T, scaleDt_idx, scaleDt_dt,
     getD_map_mul, Option.map_map, hf, mul_inv_mul_cancel hk]
 
+/-! ## 7. the builder -/
+
+theorem rescale_freqMismatch (k : Rat) (p : CHPP) : (CHPP.rescale k p).freqMismatch = p.freqMismatch := rfl
+
+theorem resolveCHPWith_rescale {k : Rat} (hk : 0 < k) {u u' : Nat} (hu : (u' : Rat) * k = (u : Rat)) (p : CHPP)
+    (hg : GuardStable k p) (hrc : p.runningCosts.isKey = false) (hci : p.consumptionIfOn.isKey = false)
+    (base : AssetProblem) (g : Grid) (prices : Prices) (s : Nat) (costsOnly : Bool) :
+    resolveCHPWith (CHPP.rescale k p) base (g.scaleDt k) prices u' s costsOnly
+      = resolveCHPWith p base g prices u s costsOnly := by
+  have hk0 : k ≠ 0 := by intro h; rw [h] at hk; exact absurd hk (by decide)
+  unfold resolveCHPWith
+  simp only [chpCtor_rescale hk p hg, scaleDt_T, rescale_freqMismatch, chpVectors_rescale hk0 p hrc hci,
+    mkCHPR_rescale hk0 hu]
+
+theorem resolveCHP_rescale {k : Rat} (hk : 0 < k) {u u' : Nat} (hu : (u' : Rat) * k = (u : Rat)) (p : CHPP)
+    (hg : GuardStable k p) (hrc : p.runningCosts.isKey = false) (hci : p.consumptionIfOn.isKey = false)
+    (base : AssetProblem) (g : Grid) (prices : Prices) (s : Nat) :
+    resolveCHP (CHPP.rescale k p) base (g.scaleDt k) prices u' s = resolveCHP p base g prices u s :=
+  resolveCHPWith_rescale hk hu p hg hrc hci base g prices s false
+
+/-- C12 for `CHPAsset` / `Plant` (profile-free): the rescaled asset on the rescaled grid is literally the same problem -/
+theorem buildCHP_rescale {k : Rat} (hk : 0 < k) {u u' : Nat} (hu : (u' : Rat) * k = (u : Rat)) (p : CHPP)
+    (hg : GuardStable k p) (hrc : p.runningCosts.isKey = false) (hci : p.consumptionIfOn.isKey = false)
+    (base : AssetProblem) (g : Grid) (prices : Prices) (s : Nat) :
+    buildCHP (CHPP.rescale k p) base (g.scaleDt k) prices u' s = buildCHP p base g prices u s := by
+  unfold buildCHP
+  rw [resolveCHP_rescale hk hu p hg hrc hci]
+
+theorem costsOnlyCHP_rescale {k : Rat} (hk : 0 < k) {u u' : Nat} (hu : (u' : Rat) * k = (u : Rat)) (p : CHPP)
+    (hg : GuardStable k p) (hrc : p.runningCosts.isKey = false) (hci : p.consumptionIfOn.isKey = false)
+    (base : AssetProblem) (g : Grid) (prices : Prices) (s : Nat) :
+    costsOnlyCHP (CHPP.rescale k p) base (g.scaleDt k) prices u' s = costsOnlyCHP p base g prices u s := by
+  unfold costsOnlyCHP
+  rw [resolveCHPWith_rescale hk hu p hg hrc hci]
+
+/-! ## 8. minimum-load costs -/
+
+theorem optVec_rescale {k : Rat} (hk : k ≠ 0) (v : Option ParamValue) (hv : ∀ w, v = some w → w.isKey = false)
+    (g : Grid) (prices : Prices) :
+    optVec (v.map (·.scale (1 / k))) (g.scaleDt k) prices = optVec v g prices := by
+  cases v with
+  | none => rfl
+  | some w => simp only [Option.map_some, optVec, vec_rescale hk (hv w rfl)]
+
+theorem addMinLoad_scaleDt (a : AssetProblem) (k : Rat) (g : Grid) (thr costs : List Rat) :
+    addMinLoad a (g.scaleDt k) thr costs = addMinLoad a g thr costs := rfl
+
+theorem buildMinLoad_rescale {k : Rat} (hk : k ≠ 0) (q : MinLoadP) (ht : ∀ w, q.threshold = some w → w.isKey = false)
+    (hc : ∀ w, q.costs = some w → w.isKey = false) (a : AssetProblem) (g : Grid) (prices : Prices) :
+    buildMinLoad (MinLoadP.rescale k q) a (g.scaleDt k) prices = buildMinLoad q a g prices := by
+  unfold buildMinLoad
+  simp only [MinLoadP.rescale, scaleDt_T, optVec_rescale hk _ ht, optVec_rescale hk _ hc, addMinLoad_scaleDt]
+
+theorem costsOnlyMinLoad_rescale {k : Rat} (hk : k ≠ 0) (q : MinLoadP) (ht : ∀ w, q.threshold = some w → w.isKey = false)
+    (hc : ∀ w, q.costs = some w → w.isKey = false) (c : List Rat) (g : Grid) (prices : Prices) :
+    costsOnlyMinLoad (MinLoadP.rescale k q) c (g.scaleDt k) prices = costsOnlyMinLoad q c g prices := by
+  unfold costsOnlyMinLoad
+  simp only [MinLoadP.rescale, scaleDt_T, optVec_rescale hk _ ht, optVec_rescale hk _ hc]
+
+/-! ## the hypotheses are satisfiable on a non-trivial instance (hours → minutes) -/
+
+def exP : CHPP :=
+  { guardEx with nodes := ["el", "gas"], minCap := .scalar 2, ramp := some 3, runningCosts := .array [5, 7],
+                 minRuntime := 2, minDowntime := 2, timeAlreadyRunning := 1, lastDispatch := 4,
+                 consumptionIfOn := .scalar (1 / 2) }
+def exG : Grid := { pts := [0, 3600], idx := [0, 1], dt := [1, 1], Dt := [1, 1], df := [1, 1] }
+def exBase : AssetProblem :=
+  { name := "chp", nodes := ["el", "gas"], c := [1, 1], l := [2, 2], u := [10, 10], rows := [],
+    mapping := [{ var := 0, asset := "chp", node := some "el", kind := .d, step := 0, factor := 1, isBool := false, varName := "disp" },
+                { var := 1, asset := "chp", node := some "el", kind := .d, step := 1, factor := 1, isBool := false, varName := "disp" }] }
+
+example : buildCHP (CHPP.rescale 60 exP) exBase (exG.scaleDt 60) [] 60 3600 = buildCHP exP exBase exG [] 3600 3600 :=
+  buildCHP_rescale (by decide +kernel) (by decide +kernel) exP (by decide +kernel) (by decide) (by decide) exBase exG [] 3600
+example : (match buildCHP (CHPP.rescale 60 exP) exBase (exG.scaleDt 60) [] 60 3600 with
+    | .ok P => P.c == [1, 1, 5, 7, 0, 0] && P.l == [0, 0, 1, 0, 0, 0] && P.mapping.length == 12 &&
+        P.rows.map Row.rhs == [0, 0, 0, 0, 0, 0, 1, 4, 0, 0, 0]
+    | .error _ => false) = true := by decide +kernel
+
+example : buildMinLoad (MinLoadP.rescale 60 ⟨some (.scalar 3), some (.array [6, 12])⟩) exBase (exG.scaleDt 60) []
+    = buildMinLoad ⟨some (.scalar 3), some (.array [6, 12])⟩ exBase exG [] :=
+  buildMinLoad_rescale (by decide +kernel) _ (by intro w h; cases h; rfl) (by intro w h; cases h; rfl) exBase exG []
+example : (match buildMinLoad (MinLoadP.rescale 60 ⟨some (.scalar 3), some (.array [6, 12])⟩) exBase (exG.scaleDt 60) [] with
+    | .ok P => P.c == [1, 1, 6, 12] && P.rows.map Row.rhs == [3, 3]
+    | .error _ => false) = true := by decide +kernel
+
 end EAO.CHPUnit
+
+/-
+`#print axioms` (scratch file importing the built module):
+'EAO.CHPUnit.buildCHP_rescale' depends on axioms: [propext, Classical.choice, Quot.sound]
+'EAO.CHPUnit.costsOnlyCHP_rescale' depends on axioms: [propext, Classical.choice, Quot.sound]
+'EAO.CHPUnit.buildMinLoad_rescale' depends on axioms: [propext, Classical.choice, Quot.sound]
+'EAO.CHPUnit.costsOnlyMinLoad_rescale' depends on axioms: [propext, Classical.choice, Quot.sound]
+'EAO.CHPUnit.convertSteps_rescale' depends on axioms: [propext, Classical.choice, Quot.sound]
+'EAO.CHPUnit.guard_not_unit_invariant' depends on axioms: [propext, Classical.choice, Quot.sound]
+-/
